@@ -147,6 +147,14 @@ func C2NewSRPVerifier(gr C2SRPGroup, x *big.Int, salt1, salt2 []byte, b *big.Int
 	return s
 }
 
+// SetSecret picks the server secret b for a verifier whose V was stored earlier and computes B = (k*v + g^b) mod p.
+func (s *C2SRPVerifier) SetSecret(b *big.Int) {
+	s.b = b
+	s.B = new(big.Int).Mul(s.Group.k(), s.V)
+	s.B.Add(s.B, new(big.Int).Exp(big.NewInt(s.Group.G), b, s.Group.P))
+	s.B.Mod(s.B, s.Group.P)
+}
+
 // Check decides whether (A, M1) proves knowledge of the registered password.
 func (s *C2SRPVerifier) Check(A, M1 []byte) bool {
 	if len(A) != 256 {
